@@ -252,14 +252,20 @@ func (db *DB) ResyncFromBlobstor(bs common.Storage, onIterationError func(oid.Ad
 		db:      db,
 		batch:   make([]*object.Object, 0, resyncBatchSize),
 	}
-	err = bs.Iterate(rh.handle, onIterationError)
-	if err != nil {
-		return fmt.Errorf("could not put objects to the meta from blobstor: %w", err)
-	}
+	// Tombstones are applied in a second pass: a tombstone marks only those
+	// children of its target that are already known to the metabase, so it
+	// must not be handled before any part of the object it removes (blob
+	// iteration order is arbitrary).
+	for _, rh.tombstones = range []bool{false, true} {
+		err = bs.Iterate(rh.handle, onIterationError)
+		if err != nil {
+			return fmt.Errorf("could not put objects to the meta from blobstor: %w", err)
+		}
 
-	// Flush any remaining objects in the batch
-	if err := rh.flush(); err != nil {
-		return fmt.Errorf("could not flush remaining objects to metabase: %w", err)
+		// Flush any remaining objects in the batch
+		if err := rh.flush(); err != nil {
+			return fmt.Errorf("could not flush remaining objects to metabase: %w", err)
+		}
 	}
 
 	return nil
@@ -270,6 +276,8 @@ type resyncHandler struct {
 	onError func(oid.Address, error) error
 	db      *DB
 	batch   []*object.Object
+	// tombstones selects the pass: tombstones only or everything else.
+	tombstones bool
 }
 
 func (rh *resyncHandler) handle(addr oid.Address, data []byte) error {
@@ -277,6 +285,9 @@ func (rh *resyncHandler) handle(addr oid.Address, data []byte) error {
 
 	if err := obj.Unmarshal(data); err != nil {
 		return rh.onError(addr, err)
+	}
+	if (obj.Type() == object.TypeTombstone) != rh.tombstones {
+		return nil
 	}
 	if obj.Address() != addr {
 		objAddrStr := obj.Address().String()
